@@ -2,9 +2,11 @@ package main
 
 import (
 	"bytes"
+	"encoding/binary"
 	"errors"
 	"fmt"
 	"io"
+	"strings"
 	"sync"
 
 	"github.com/zmap/zcrypto/tls"
@@ -87,88 +89,157 @@ func (cf connConf) maxWire() int {
 	return 0
 }
 
+// maxCipher is the largest TLSCiphertext.length a receiver may accept (RFC 5246 6.2.3, RFC 8446 5.2).
+func (cf connConf) maxCipher() int {
+	if cf.Vers == tls.VersionTLS13 {
+		return 16384 + 256
+	}
+	return 16384 + 2048
+}
+
+// recVers is the version field of protected records.
+func (cf connConf) recVers() uint16 {
+	if cf.Vers == tls.VersionTLS13 {
+		return tls.VersionTLS12
+	}
+	return cf.Vers
+}
+
+const rbufMixed = 0 // read-buffer axis value: cycle through mixedSched (includes zero-length reads)
+
+var mixedSched = []int{0, 1, 7, 0, 0, 3, 16384, 2, 5, 0, 70000, 1}
+
+func rbufName(n int) string {
+	if n == rbufMixed {
+		return "mixed 0/1/7/0/0/3/16384/2/5/0/70000/1"
+	}
+	return fmt.Sprint(n)
+}
+
+type runOpts struct {
+	sizes []int
+	seg   int  // transport read segmentation (0 = unlimited)
+	rev   bool // false: client writes, server reads; true: server writes, client reads
+	rbuf  int  // length of the buffer passed to Read (rbufMixed: schedule)
+	edits func() []tlsx.Edit
+}
+
+func (o runOpts) dir() tlsx.Dir {
+	if o.rev {
+		return tlsx.S2C
+	}
+	return tlsx.C2S
+}
+
+func (o runOpts) dirName() string {
+	if o.rev {
+		return "server writes, client reads"
+	}
+	return "client writes, server reads"
+}
+
 type connResult struct {
-	sent     []byte // client -> server application bytes
-	got      []byte // what the server's Read calls delivered
-	rerr     error  // final error of the reading side (nil if it stopped because everything expected arrived)
+	sent     []byte // application bytes the writer passed to Write
+	got      []byte // concatenation of everything the reader's Read calls delivered
+	rerr     error  // final error of the reading side
 	werr     error
 	hsOK     bool
 	panics   []string
-	c2s      []byte
+	wire     []byte // writer -> reader stream as written by the writer
 	appRecs  []tlsx.Record
 	stalled  bool
 	reached  int
-	hsEndC2S int // offset in the c2s stream where application records start
+	hsEnd    int // offset in the wire stream where post-handshake records start
+	reads    int
+	badRead  string // a Read call that broke the io.Reader contract (n > len(buf), n != 0 for an empty buffer)
+	zeroRead int
 }
 
-// runConn: handshake, then the client performs the writes (sizes), closes; the server reads until error/EOF.
-func runConn(cf connConf, sizes []int, seg int, mkEdits func(base *connResult) []tlsx.Edit, base *connResult) *connResult {
+// runConn: handshake, then the writer performs the writes (sizes) and closes; the reader reads until error/EOF.
+func runConn(cf connConf, o runOpts) *connResult {
 	r := &connResult{}
 	cc, sc := cf.configs()
 	var applied *int
 	s := tlsx.Handshake(cc, sc, func(n *tlsx.Net) {
-		if seg > 0 {
-			n.MaxRd[tlsx.C2S], n.MaxRd[tlsx.S2C] = seg, seg
+		if o.seg > 0 {
+			n.MaxRd[tlsx.C2S], n.MaxRd[tlsx.S2C] = o.seg, o.seg
 		}
-		if mkEdits != nil {
-			applied = tlsx.InstallEdits(n, mkEdits(base))
+		if o.edits != nil {
+			applied = tlsx.InstallEdits(n, o.edits())
 		}
 	})
 	if s.Client.Panic != "" || s.Server.Panic != "" {
 		r.panics = append(r.panics, s.Client.Panic, s.Server.Panic)
 	}
 	r.hsOK = s.Client.OKDone && s.Server.OKDone
-	r.hsEndC2S = len(s.Net.Stream(tlsx.C2S))
+	r.hsEnd = len(s.Net.Stream(o.dir()))
+	wr, rd := s.Client.Conn, s.Server.Conn
+	if o.rev {
+		wr, rd = rd, wr
+	}
 	if r.hsOK {
 		var wg sync.WaitGroup
 		wg.Add(1)
 		go func() {
 			defer wg.Done()
 			p, msg, site := ev.Try(func() {
+				sched := []int{o.rbuf}
+				if o.rbuf == rbufMixed {
+					sched = mixedSched
+				}
 				buf := make([]byte, 70000)
-				for {
-					n, err := s.Server.Conn.Read(buf)
+				for k := 0; ; k++ {
+					sz := sched[k%len(sched)]
+					n, err := rd.Read(buf[:sz])
+					r.reads++
+					if n < 0 || n > sz {
+						r.badRead = fmt.Sprintf("Read(buf[:%d]) returned n=%d", sz, n)
+						break
+					}
+					if sz == 0 {
+						r.zeroRead++
+					}
 					r.got = append(r.got, buf[:n]...)
 					if err != nil {
 						r.rerr = err
 						break
 					}
 				}
-				s.Server.Conn.Close()
+				rd.Close()
 			})
 			if p {
-				r.panics = append(r.panics, "server Read: "+msg+" @ "+site)
+				r.panics = append(r.panics, "reader Read: "+msg+" @ "+site)
 			}
 		}()
 		p, msg, site := ev.Try(func() {
 			ctr := byte(0)
-			for _, sz := range sizes {
+			for _, sz := range o.sizes {
 				b := make([]byte, sz)
 				for i := range b {
 					ctr++
 					b[i] = ctr ^ byte(i>>8)
 				}
 				r.sent = append(r.sent, b...)
-				if _, err := s.Client.Conn.Write(b); err != nil {
+				if _, err := wr.Write(b); err != nil {
 					r.werr = err
 					break
 				}
 			}
-			s.Client.Conn.Close()
+			wr.Close()
 		})
 		if p {
-			r.panics = append(r.panics, "client Write: "+msg+" @ "+site)
+			r.panics = append(r.panics, "writer Write: "+msg+" @ "+site)
 		}
 		wg.Wait()
 	}
 	s.Close()
-	r.c2s = s.Net.Stream(tlsx.C2S)
+	r.wire = s.Net.Stream(o.dir())
 	r.stalled = s.Net.Stalled
 	if applied != nil {
 		r.reached = *applied
 	}
-	for _, rec := range tlsx.ParseRecords(r.c2s) {
-		if rec.Off >= r.hsEndC2S {
+	for _, rec := range tlsx.ParseRecords(r.wire) {
+		if rec.Off >= r.hsEnd {
 			r.appRecs = append(r.appRecs, rec)
 		}
 	}
@@ -195,136 +266,286 @@ func allSizeSeqs(alpha []int, maxLen int) [][]int {
 
 func isCleanEOF(err error) bool { return err == nil || errors.Is(err, io.EOF) }
 
+// isRecordOverflow: the receiver named the failure record_overflow (alert 22; zcrypto reports a RecordHeaderError
+// "oversized record received" after sending that alert when the length field alone is beyond the limit).
+func isRecordOverflow(err error) bool {
+	var rh tls.RecordHeaderError
+	if errors.As(err, &rh) && strings.Contains(rh.Msg, "oversized record") {
+		return true
+	}
+	var a tls.Alert
+	return errors.As(err, &a) && a == tls.AlertRecordOverflow
+}
+
+type connJob struct {
+	cf     connConf
+	o      runOpts
+	fdesc  string
+	kind   string
+	lim    int  // index into limits: first post-handshake record whose data must NOT be delivered
+	eofOK  bool // the fault is indistinguishable from the transport ending at a record boundary / after close_notify: a clean EOF is acceptable
+	wantRO bool // the error must be record_overflow
+	limits []int
+	base   string
+}
+
+// faultJobs builds the fault menu over the post-handshake records of one baseline (configuration, direction, writes).
+func faultJobs(c *ev.Ctx, cf connConf, rev bool, sizes []int, multi bool) []connJob {
+	thorough := !c.Quick()
+	dir := runOpts{rev: rev}.dir()
+	bo := runOpts{sizes: sizes, rev: rev, rbuf: 70000}
+	base := runConn(cf, bo)
+	b2 := runConn(cf, bo)
+	c.Traces.Add(2)
+	if !base.hsOK || !bytes.Equal(base.got, base.sent) || !isCleanEOF(base.rerr) {
+		c.Violation(fmt.Sprintf("no fault: stream not delivered intact (%s)", cf.Kind),
+			map[string]any{"config": cf.Name, "direction": bo.dirName(), "write_sizes": sizes, "handshake_ok": base.hsOK, "delivered": len(base.got), "sent": len(base.sent), "read_error": fmt.Sprint(base.rerr)})
+		return nil
+	}
+	if !bytes.Equal(base.wire, b2.wire) {
+		c.Broken("baseline transcript of %s (%s) is not reproducible", cf.Name, bo.dirName())
+	}
+	recs := base.appRecs
+	with := func(rbuf int, e ...tlsx.Edit) runOpts {
+		return runOpts{sizes: sizes, rev: rev, rbuf: rbuf, edits: func() []tlsx.Edit { return e }}
+	}
+	// limits[k] = number of plaintext bytes carried by the post-handshake records before record k,
+	// measured by cutting the authentic stream exactly at the start of record k.
+	limits := make([]int, len(recs)+1)
+	for k := range recs {
+		t := runConn(cf, with(70000, tlsx.Edit{Dir: dir, Kind: tlsx.Trunc, A: recs[k].Off}))
+		limits[k] = len(t.got)
+		c.Traces.Add(1)
+	}
+	limits[len(recs)] = len(base.sent)
+	for k := 1; k <= len(recs); k++ {
+		if limits[k] < limits[k-1] {
+			c.Broken("non-monotone record limits for %s: %v", cf.Name, limits)
+		}
+	}
+	if limits[0] != 0 || limits[len(recs)-1] != len(base.sent) {
+		c.Broken("unexpected record limits for %s: %v (sent %d)", cf.Name, limits, len(base.sent))
+	}
+	bname := fmt.Sprint(sizes)
+	var jobs []connJob
+	add := func(kind string, lim int, eofOK bool, desc string, rbufs []int, e ...tlsx.Edit) {
+		for _, rb := range rbufs {
+			jobs = append(jobs, connJob{cf: cf, o: with(rb, e...), kind: kind, lim: lim, eofOK: eofOK, limits: limits, fdesc: desc, base: bname})
+		}
+	}
+	big := []int{70000}
+	all := []int{70000, 1}
+	if thorough {
+		big = []int{70000, 7}
+		all = []int{70000, 1, 7, rbufMixed}
+	}
+	last := len(recs) - 1
+	for ri, rec := range recs {
+		// positions of single-byte modifications and of cuts inside this record
+		type pos struct {
+			o     int
+			rbufs []int
+			masks []byte
+		}
+		var xorAt, cutAt []pos
+		both := []byte{0x01, 0x80}
+		if !multi {
+			for o := rec.Off; o < rec.End(); o++ {
+				d := o - rec.Off
+				edge := d < 16 || o >= rec.End()-8
+				rb := big
+				if d == 3 || d == 5 || o == rec.End()-1 {
+					rb = all
+				}
+				switch {
+				case thorough || edge:
+					xorAt = append(xorAt, pos{o, rb, both})
+				case d%3 == 0 && (d/3)%2 == map[bool]int{false: 0, true: 1}[rev]:
+					// quick, inside the body: every 3rd byte, alternating between the two directions
+					xorAt = append(xorAt, pos{o, rb, both})
+				}
+				switch {
+				case thorough, d == 0, d == 1, d == 4, d == 5, o == rec.End()-1:
+					cutAt = append(cutAt, pos{o, all, nil})
+				case d%4 == 0:
+					cutAt = append(cutAt, pos{o, big, nil})
+				}
+			}
+		} else {
+			// large records of a multi-record Write. quick: full menu on the first two, the last data record and
+			// close_notify, header/first/middle/last byte there; the records in between get one header and one body fault.
+			// thorough: the first 24 and last 16 bytes and every 512th byte of every record.
+			full := ri <= 1 || ri >= last-1
+			for o := rec.Off; o < rec.End(); o++ {
+				d := o - rec.Off
+				var sel bool
+				switch {
+				case thorough:
+					sel = d < 24 || o >= rec.End()-16 || d%512 == 0
+				case full:
+					sel = d <= 5 || o == rec.End()-1 || d == 5+rec.Len/2
+				default:
+					sel = d == 3 || d == 5+rec.Len/2
+				}
+				if !sel {
+					continue
+				}
+				m := []byte{0x01}
+				if thorough || d == 3 {
+					m = both
+				}
+				rb := big
+				if full && (d == 3 || d == 5) {
+					rb = all
+				}
+				xorAt = append(xorAt, pos{o, rb, m})
+				if thorough || full || d != 3 {
+					cutAt = append(cutAt, pos{o, rb, nil})
+				}
+			}
+			if !thorough && !full {
+				cutAt = append(cutAt, pos{rec.Off, big, nil})
+			}
+		}
+		for _, x := range xorAt {
+			for _, m := range x.masks {
+				add("modify", ri, false, fmt.Sprintf("xor %02x at byte %d of record %d of %d (offset %d in record)", m, x.o, ri, len(recs), x.o-rec.Off), x.rbufs,
+					tlsx.Edit{Dir: dir, Kind: tlsx.Xor, A: x.o, Val: m})
+			}
+		}
+		for _, x := range cutAt {
+			o := x.o
+			if o == rec.Off {
+				// the transport ends exactly at a record boundary without close_notify: zcrypto documents (conn.go readRecordOrCCS,
+				// same as crypto/tls) that it reports io.EOF there; the statement only forbids delivering different data
+				add("truncate-at-boundary", ri, true, fmt.Sprintf("truncate stream at the start of record %d of %d", ri, len(recs)), x.rbufs,
+					tlsx.Edit{Dir: dir, Kind: tlsx.Trunc, A: o})
+			} else {
+				// a cut inside a record: the bytes of that record never arrive whole; a clean EOF here would hide a truncation
+				add("truncate-mid-record", ri, false, fmt.Sprintf("truncate stream inside record %d of %d (offset %d in record)", ri, len(recs), o-rec.Off), x.rbufs,
+					tlsx.Edit{Dir: dir, Kind: tlsx.Trunc, A: o})
+			}
+		}
+		add("drop", ri, ri == last, fmt.Sprintf("drop record %d of %d", ri, len(recs)), all, tlsx.Edit{Dir: dir, Kind: tlsx.Drop, A: rec.Off, B: rec.End()})
+		add("dup", ri+1, ri == last /* a copy of close_notify arrives after the stream has ended */, fmt.Sprintf("duplicate record %d of %d", ri, len(recs)), all,
+			tlsx.Edit{Dir: dir, Kind: tlsx.Dup, A: rec.Off, B: rec.End()})
+		if ri < last {
+			nx := recs[ri+1]
+			add("swap", ri, false, fmt.Sprintf("swap records %d and %d of %d", ri, ri+1, len(recs)), all, tlsx.Edit{Dir: dir, Kind: tlsx.Swap, A: rec.Off, B: rec.End(), C: nx.End()})
+		}
+		// a forged record whose length field is beyond what any legal record can have (garbage body of that length follows)
+		if !multi || ri == 0 || ri == last {
+			forged := func(n int) []byte {
+				h := []byte{23, byte(cf.recVers() >> 8), byte(cf.recVers()), byte(n >> 8), byte(n)}
+				body := make([]byte, n)
+				for i := range body {
+					body[i] = byte(i*7 + 3)
+				}
+				return append(h, body...)
+			}
+			mc := cf.maxCipher()
+			for _, n := range []int{mc + 1, 0xffff} {
+				jobs = append(jobs, connJob{cf: cf, o: with(70000, tlsx.Edit{Dir: dir, Kind: tlsx.Insert, A: rec.Off, Data: forged(n)}), kind: "oversize", lim: ri, wantRO: true, limits: limits, base: bname,
+					fdesc: fmt.Sprintf("insert a record with length field max+%d before record %d of %d", n-mc, ri, len(recs))})
+			}
+			if cf.Vers != tls.VersionTLS13 && ri == 0 {
+				jobs = append(jobs, connJob{cf: cf, o: with(70000, tlsx.Edit{Dir: dir, Kind: tlsx.Insert, A: rec.Off, Data: forged(16384 + 256 + 1)}), kind: "forged-legal-length", lim: ri, limits: limits, base: bname,
+					fdesc: fmt.Sprintf("insert a forged record with length field 2^14+257 before record %d of %d", ri, len(recs))})
+			}
+			jobs = append(jobs, connJob{cf: cf, o: with(70000, tlsx.Edit{Dir: dir, Kind: tlsx.Insert, A: rec.Off, Data: forged(mc)}), kind: "forged-legal-length", lim: ri, limits: limits, base: bname,
+				fdesc: fmt.Sprintf("insert a forged record with the maximal legal length field before record %d of %d", ri, len(recs))})
+		}
+		// pairs of faults (thorough): modify this record and drop/dup a later one
+		if thorough && !multi {
+			for rj := ri + 1; rj < len(recs); rj++ {
+				r2 := recs[rj]
+				for _, o := range []int{rec.Off + 5, rec.End() - 1} {
+					add("modify", ri, false, fmt.Sprintf("xor 01 at %d in record %d AND drop record %d", o, ri, rj), big,
+						tlsx.Edit{Dir: dir, Kind: tlsx.Xor, A: o, Val: 1}, tlsx.Edit{Dir: dir, Kind: tlsx.Drop, A: r2.Off, B: r2.End()})
+				}
+			}
+		}
+	}
+	return jobs
+}
+
 func connLevel(c *ev.Ctx) {
 	thorough := !c.Quick()
 	confs := connConfs(thorough)
 	alpha := []int{0, 1, 2, 16383, 16384, 16385, 40000}
 	seqs := allSizeSeqs(alpha, ev.Pick(c, 2, 3))
-	segs := []int{0, 1, 5, 1000}
-	if c.Quick() {
-		segs = []int{0, 1, 1000}
+	type rdShape struct{ seg, rbuf int }
+	var shapes []rdShape
+	if thorough {
+		for _, sg := range []int{0, 1, 5, 1000} {
+			for _, rb := range []int{70000, 16384, 7, 1, rbufMixed} {
+				shapes = append(shapes, rdShape{sg, rb})
+			}
+		}
+	} else {
+		// every read-buffer size with unsegmented transport, every transport segmentation with the large buffer,
+		// and the small x small corners
+		shapes = []rdShape{{0, 70000}, {0, 16384}, {0, 7}, {0, 1}, {0, rbufMixed}, {1, 70000}, {1000, 70000}, {1, 7}, {1000, 1}, {1000, rbufMixed}}
 	}
-	type job struct {
-		cf     connConf
-		sizes  []int
-		seg    int
-		fault  func(base *connResult) []tlsx.Edit
-		fdesc  string
-		kind   string
-		base   *connResult
-		lim    int  // index into limits: first application record whose data must NOT be delivered
-		tail   bool // the fault only cuts off the tail of the stream: a clean EOF is acceptable
-		limits []int
-	}
-	var jobs []job
-	// (1) no-fault stream integrity + record size bound
+	// quick: sequences of two writes get every read-buffer size and every segmentation once, not their product
+	twoWriteShape := map[int]bool{0: true, 1: true, 2: true, 4: true, 5: true, 6: true, 8: true}
+	var jobs []connJob
+	// (1) no-fault stream integrity + record size bound, both directions
 	for _, cf := range confs {
-		for _, sz := range seqs {
-			for _, sg := range segs {
-				if sg == 1 && (len(sz) > 2 || sum(sz) > 45000) {
-					continue // 1-byte transport reads of large streams only for short sequences
-				}
-				jobs = append(jobs, job{cf: cf, sizes: sz, seg: sg, kind: "nofault"})
-			}
-		}
-	}
-	// (2) faults after the handshake: baseline = writes {100, 300, 50} (3 application records + close_notify)
-	faultSizes := []int{100, 300, 50}
-	for _, cf := range confs {
-		cf := cf
-		base := runConn(cf, faultSizes, 0, nil, nil)
-		b2 := runConn(cf, faultSizes, 0, nil, nil)
-		if !base.hsOK || !bytes.Equal(base.got, base.sent) || !isCleanEOF(base.rerr) {
-			c.Violation(fmt.Sprintf("no fault: stream not delivered intact (%s)", cf.Kind),
-				map[string]any{"config": cf.Name, "write_sizes": faultSizes, "handshake_ok": base.hsOK, "delivered": len(base.got), "sent": len(base.sent), "read_error": fmt.Sprint(base.rerr)})
-			continue
-		}
-		if !bytes.Equal(base.c2s, b2.c2s) {
-			c.Broken("baseline transcript of %s is not reproducible", cf.Name)
-		}
-		c.Traces.Add(2)
-		recs := base.appRecs
-		// limits[k] = number of plaintext bytes carried by the application records before record k,
-		// measured by cutting the authentic stream exactly at the start of record k.
-		limits := make([]int, len(recs)+1)
-		for k := range recs {
-			off := recs[k].Off
-			t := runConn(cf, faultSizes, 0, func(*connResult) []tlsx.Edit { return []tlsx.Edit{{Dir: tlsx.C2S, Kind: tlsx.Trunc, A: off}} }, base)
-			limits[k] = len(t.got)
-			c.Traces.Add(1)
-		}
-		limits[len(recs)] = len(base.sent)
-		for k := 1; k <= len(recs); k++ {
-			if limits[k] < limits[k-1] {
-				c.Broken("non-monotone record limits for %s: %v", cf.Name, limits)
-			}
-		}
-		if limits[0] != 0 || limits[len(recs)-1] != len(base.sent) {
-			c.Broken("unexpected record limits for %s: %v (sent %d)", cf.Name, limits, len(base.sent))
-		}
-		for ri, rec := range recs {
-			ri, rec := ri, rec
-			for o := rec.Off; o < rec.End(); o++ {
-				o := o
-				stride := ev.Pick(c, 3, 1)
-				if o >= rec.Off+16 && o < rec.End()-8 && (o-rec.Off)%stride != 0 {
-					continue
-				}
-				for _, m := range []byte{0x01, 0x80} {
-					m := m
-					jobs = append(jobs, job{cf: cf, sizes: faultSizes, kind: "modify", base: base, lim: ri, limits: limits,
-						fdesc: fmt.Sprintf("xor %02x at byte %d of app record %d (offset %d in record)", m, o, ri, o-rec.Off),
-						fault: func(*connResult) []tlsx.Edit { return []tlsx.Edit{{Dir: tlsx.C2S, Kind: tlsx.Xor, A: o, Val: m}} }})
-				}
-				if thorough || (o-rec.Off)%4 == 0 {
-					jobs = append(jobs, job{cf: cf, sizes: faultSizes, kind: "truncate", base: base, lim: ri, limits: limits, tail: true,
-						fdesc: fmt.Sprintf("truncate stream at byte %d (app record %d, offset %d)", o, ri, o-rec.Off),
-						fault: func(*connResult) []tlsx.Edit { return []tlsx.Edit{{Dir: tlsx.C2S, Kind: tlsx.Trunc, A: o}} }})
-				}
-			}
-			jobs = append(jobs, job{cf: cf, sizes: faultSizes, kind: "drop", base: base, lim: ri, limits: limits, tail: ri == len(recs)-1, fdesc: fmt.Sprintf("drop app record %d of %d", ri, len(recs)),
-				fault: func(*connResult) []tlsx.Edit {
-					return []tlsx.Edit{{Dir: tlsx.C2S, Kind: tlsx.Drop, A: rec.Off, B: rec.End()}}
-				}})
-			jobs = append(jobs, job{cf: cf, sizes: faultSizes, kind: "dup", base: base, lim: ri + 1, limits: limits, tail: ri == len(recs)-1 /* a copy of close_notify arrives after the stream has ended */, fdesc: fmt.Sprintf("duplicate app record %d of %d", ri, len(recs)),
-				fault: func(*connResult) []tlsx.Edit {
-					return []tlsx.Edit{{Dir: tlsx.C2S, Kind: tlsx.Dup, A: rec.Off, B: rec.End()}}
-				}})
-			if ri+1 < len(recs) {
-				nx := recs[ri+1]
-				jobs = append(jobs, job{cf: cf, sizes: faultSizes, kind: "swap", base: base, lim: ri, limits: limits, fdesc: fmt.Sprintf("swap app records %d and %d", ri, ri+1),
-					fault: func(*connResult) []tlsx.Edit {
-						return []tlsx.Edit{{Dir: tlsx.C2S, Kind: tlsx.Swap, A: rec.Off, B: rec.End(), C: nx.End()}}
-					}})
-			}
-			// pairs of faults (thorough): modify this record and drop/dup a later one
-			if thorough {
-				for rj := ri + 1; rj < len(recs); rj++ {
-					r2 := recs[rj]
-					for _, o := range []int{rec.Off + 5, rec.End() - 1} {
-						o := o
-						jobs = append(jobs, job{cf: cf, sizes: faultSizes, kind: "modify", base: base, lim: ri, limits: limits, fdesc: fmt.Sprintf("xor 01 at %d in record %d AND drop record %d", o, ri, rj),
-							fault: func(*connResult) []tlsx.Edit {
-								return []tlsx.Edit{{Dir: tlsx.C2S, Kind: tlsx.Xor, A: o, Val: 1}, {Dir: tlsx.C2S, Kind: tlsx.Drop, A: r2.Off, B: r2.End()}}
-							}})
+		for _, rev := range []bool{false, true} {
+			for _, sz := range seqs {
+				for si, sh := range shapes {
+					if !thorough && len(sz) > 1 && !twoWriteShape[si] {
+						continue
 					}
+					if (sh.seg == 1 || sh.rbuf == 1) && (len(sz) > 2 || sum(sz) > 45000) {
+						continue // 1-byte transport reads / 1-byte Read buffers of large streams only for short sequences
+					}
+					jobs = append(jobs, connJob{cf: cf, o: runOpts{sizes: sz, seg: sh.seg, rev: rev, rbuf: sh.rbuf}, kind: "nofault"})
 				}
 			}
 		}
+	}
+	nNoFault := len(jobs)
+	// (2) faults after the handshake, both directions: baseline A = writes {100, 300, 50} (3 single-record writes + close_notify),
+	// baseline B = one write of 40000 bytes (several records, growing sizes under dynamic record sizing)
+	type bspec struct {
+		cf    connConf
+		rev   bool
+		sizes []int
+		multi bool
+	}
+	var specs []bspec
+	for _, cf := range confs {
+		for _, rev := range []bool{false, true} {
+			specs = append(specs, bspec{cf, rev, []int{100, 300, 50}, false}, bspec{cf, rev, []int{40000}, true})
+		}
+	}
+	fj := make([][]connJob, len(specs))
+	c.Parallel(len(specs), func(w, i int) {
+		fj[i] = faultJobs(c, specs[i].cf, specs[i].rev, specs[i].sizes, specs[i].multi)
+	})
+	for _, f := range fj {
+		jobs = append(jobs, f...)
 	}
 	c.Set("connection_level_cases", len(jobs))
+	c.Set("connection_level_nofault_cases", nNoFault)
 	hists := make([]ev.Hist, c.Workers())
 	for i := range hists {
 		hists[i] = ev.Hist{}
 	}
 	done := c.Parallel(len(jobs), func(w, i int) {
 		j := jobs[i]
-		r := runConn(j.cf, j.sizes, j.seg, j.fault, j.base)
+		r := runConn(j.cf, j.o)
 		c.States.Add(1)
 		c.Traces.Add(1)
-		c.Transitions.Add(int64(len(tlsx.ParseRecords(r.c2s))))
-		wit := map[string]any{"config": j.cf.Name, "write_sizes": j.sizes, "read_segment": j.seg, "fault": j.fdesc,
-			"delivered": len(r.got), "sent": len(r.sent), "read_error": fmt.Sprint(r.rerr)}
+		c.Transitions.Add(int64(len(tlsx.ParseRecords(r.wire)) + r.reads))
+		wit := map[string]any{"config": j.cf.Name, "direction": j.o.dirName(), "write_sizes": j.o.sizes, "transport_read_segment": j.o.seg, "read_buffer": rbufName(j.o.rbuf),
+			"fault": j.fdesc, "delivered": len(r.got), "sent": len(r.sent), "read_error": fmt.Sprint(r.rerr)}
+		dn := "c2s"
+		if j.o.rev {
+			dn = "s2c"
+		}
 		for _, p := range r.panics {
 			if p != "" {
 				c.Violation("panic in data phase: "+ev.MsgClass(p), wit)
@@ -334,43 +555,60 @@ func connLevel(c *ev.Ctx) {
 			c.Violation("handshake of a data-phase configuration failed", wit)
 			return
 		}
+		if r.badRead != "" {
+			wit["bad_read"] = r.badRead
+			c.Violation("Read returned a byte count outside its buffer", wit)
+			return
+		}
 		// never deliver anything that is not a prefix of what was sent
 		if !bytes.HasPrefix(r.sent, r.got) {
-			c.Violation(fmt.Sprintf("reader delivered bytes that differ from what was written (%s, %s)", j.kind, j.cf.Kind), wit)
+			c.Violation(fmt.Sprintf("reader delivered bytes that differ from what was written (%s, %s, %s)", j.kind, j.cf.Kind, dn), wit)
 			hists[w][j.kind+":DIFFERENT-DATA"]++
 			return
 		}
 		switch j.kind {
 		case "nofault":
 			if !bytes.Equal(r.got, r.sent) || !isCleanEOF(r.rerr) || r.werr != nil {
-				c.Violation(fmt.Sprintf("no fault: stream not delivered intact (%s)", j.cf.Kind), wit)
+				c.Violation(fmt.Sprintf("no fault: stream not delivered intact (%s, %s)", j.cf.Kind, dn), wit)
 			}
 			// record sizing
-			appBytes, nApp := 0, 0
-			for _, rec := range r.appRecs {
-				if rec.Type == 23 || (j.cf.Vers != tls.VersionTLS13 && rec.Type == 23) {
+			nApp := 0
+			for k, rec := range r.appRecs {
+				if rec.Type == 23 {
 					nApp++
 				}
 				if rec.Len > j.cf.maxWire() {
 					wit["record_len"] = rec.Len
 					wit["max_wire"] = j.cf.maxWire()
-					c.Violation(fmt.Sprintf("record on the wire larger than 2^14 plaintext allows (%s)", j.cf.Kind), wit)
+					c.Violation(fmt.Sprintf("record on the wire larger than 2^14 plaintext allows (%s, %s)", j.cf.Kind, dn), wit)
 				}
-				appBytes += rec.Len
+				// RFC 5288 explicit nonce on the wire: the sequence number of the record (Finished was record 0 of the epoch)
+				if j.cf.Kind == "gcm12" {
+					var sb [8]byte
+					binary.BigEndian.PutUint64(sb[:], uint64(k+1))
+					if rec.Len < 8 || !bytes.Equal(rec.Payload[:8], sb[:]) {
+						wit["record_index"] = k
+						c.Violation(fmt.Sprintf("explicit GCM nonce on the wire is not the record sequence number (%s)", dn), wit)
+					}
+				}
 			}
 			// at least ceil(n/2^14) application records per Write (TLS 1.3: close_notify is also type 23)
 			need := 0
-			for _, sz := range j.sizes {
+			for _, sz := range j.o.sizes {
 				need += (sz + 16383) / 16384
 			}
 			if nApp < need {
 				wit["app_records"] = nApp
 				wit["needed_at_least"] = need
-				c.Violation(fmt.Sprintf("fewer records than ceil(n/2^14) per write: some record carries more than 2^14 plaintext bytes (%s)", j.cf.Kind), wit)
+				c.Violation(fmt.Sprintf("fewer records than ceil(n/2^14) per write: some record carries more than 2^14 plaintext bytes (%s, %s)", j.cf.Kind, dn), wit)
 			}
-			hists[w][fmt.Sprintf("nofault:intact:%s", j.cf.Kind)]++
+			hists[w][fmt.Sprintf("nofault:intact:%s:%s", j.cf.Kind, dn)]++
+			hists[w][fmt.Sprintf("nofault:intact:read-buffer=%s", strings.SplitN(rbufName(j.o.rbuf), " ", 2)[0])]++
+			if r.zeroRead > 0 {
+				hists[w]["nofault:zero-length-reads-interleaved"]++
+			}
 		default:
-			// a fault was injected in or before application record k: nothing from that record on may be delivered
+			// a fault was injected in or before record k: nothing from that record on may be delivered
 			if r.reached == 0 {
 				hists[w][j.kind+":fault-not-reached"]++
 				return
@@ -381,17 +619,28 @@ func connLevel(c *ev.Ctx) {
 				wit["limit"] = limit
 				c.Violation(fmt.Sprintf("data from a faulted or later record was delivered (%s, %s)", j.kind, j.cf.Kind), wit)
 			}
-			// the reader must end with an error; a clean EOF is only acceptable when the fault merely cut off the tail
-			if r.rerr == nil {
+			// the reader must end with an error; a clean EOF is only acceptable when the fault is a cut at a record boundary
+			switch {
+			case r.rerr == nil:
 				c.Violation(fmt.Sprintf("reader returned no error after a wire fault (%s, %s)", j.kind, j.cf.Kind), wit)
-			} else if errors.Is(r.rerr, io.EOF) && !j.tail {
+			case errors.Is(r.rerr, io.EOF) && !j.eofOK:
 				c.Violation(fmt.Sprintf("wire fault surfaced as clean EOF (%s, %s)", j.kind, j.cf.Kind), wit)
+			case j.wantRO && !isRecordOverflow(r.rerr):
+				c.Violation(fmt.Sprintf("record with a length field beyond the limit not rejected as record_overflow (%s)", j.cf.Kind), wit)
 			}
 			cls := "error"
 			if errors.Is(r.rerr, io.EOF) {
 				cls = "eof"
+			} else if isRecordOverflow(r.rerr) {
+				cls = "record-overflow"
+			} else if errors.Is(r.rerr, io.ErrUnexpectedEOF) {
+				cls = "unexpected-eof"
 			}
-			hists[w][fmt.Sprintf("%s:%s:delivered-prefix", j.kind, cls)]++
+			b := "A"
+			if len(j.o.sizes) == 1 {
+				b = "B"
+			}
+			hists[w][fmt.Sprintf("%s:%s:%s:%s", j.kind, b, dn, cls)]++
 		}
 		if i%1013 == 0 {
 			c.Sample(wit)
